@@ -45,9 +45,12 @@ func (p *parkCtl) hook(name string) {
 	<-p.release
 }
 
-type parkTS struct{ p *parkCtl }
+type parkTS struct {
+	p    *parkCtl
+	name string
+}
 
-func (t parkTS) Now() time.Time                  { t.p.hook("backend.timeSource.Now"); return impl.FixedTime }
+func (t parkTS) Now() time.Time                  { t.p.hook(t.name); return impl.FixedTime }
 func (t parkTS) Since(x time.Time) time.Duration { return impl.FixedTime.Sub(x) }
 
 type pairOp struct {
@@ -107,7 +110,7 @@ func c07Pairs(c *Ctx, kind string, budget int) {
 		all = all[:budget]
 	}
 	pc := &parkCtl{parked: make(chan string, 1), release: make(chan struct{})}
-	impl.BackendTimeSource = parkTS{pc}
+	impl.BackendTimeSource = parkTS{pc, "backend.timeSource.Now"}
 	gofakes3.VerifSetGate(pc.hook)
 	defer func() {
 		impl.BackendTimeSource = nil
@@ -312,15 +315,18 @@ func runPair(c *Ctx, kind string, pc *parkCtl, r *Runner, pre string, A, B pairO
 
 // c07PairsMp: the same for multipart requests on ONE pending upload (two parts held): complete,
 // a second complete, abort, a part re-upload, ListParts and a GET of the key, A parked at the
-// gates inside the part upload / inside the complete's PutObject.
+// gates inside the part upload / inside the complete's PutObject, and at the uploader's own calls
+// of the front end's TimeSource (UploadPart calls it inside its critical section).
 func c07PairsMp(c *Ctx, kind string, pc *parkCtl) {
+	impl.FrontTimeSource = parkTS{pc, "front.timeSource.Now"}
+	defer func() { impl.FrontTimeSource = nil }()
 	b := "bk1"
 	if strings.HasPrefix(kind, "fsS") {
 		b = impl.SingleBucketName
 	}
 	key := "mp/obj"
 	e := func(n int) string { return etagOf([]byte(fmt.Sprintf("part-body-%d", n))) }
-	names := []string{"complete", "complete12", "abort", "part1", "listparts", "get"}
+	names := []string{"complete", "complete12", "abort", "part1", "part2new", "listparts", "get"}
 	mk := func(name string, id *string) pairOp {
 		switch name {
 		case "complete":
@@ -331,6 +337,9 @@ func c07PairsMp(c *Ctx, kind string, pc *parkCtl) {
 			return pairOp{name, func(r *Runner) (string, string) { return r.MpAbort(b, key, *id) }}
 		case "part1":
 			return pairOp{name, func(r *Runner) (string, string) { return r.MpPart(b, key, *id, "1", []byte("part-body-1"), "", nil) }}
+		case "part2new":
+			// a replacement of part 2 with other bytes: a complete naming the old ETags must be refused after it
+			return pairOp{name, func(r *Runner) (string, string) { return r.MpPart(b, key, *id, "2", []byte("other-part-body-2"), "", nil) }}
 		case "listparts":
 			return pairOp{name, func(r *Runner) (string, string) {
 				l, po := r.MpParts(b, key, *id, "", "", 0, 1000)
@@ -339,9 +348,9 @@ func c07PairsMp(c *Ctx, kind string, pc *parkCtl) {
 		}
 		return pairOp{name, func(r *Runner) (string, string) { return r.Get(b, key) }}
 	}
-	for _, an := range names[:4] {
+	for _, an := range names[:5] {
 		for _, bn := range names {
-			for skip := 0; skip < 3; skip++ {
+			for skip := 0; skip < 4; skip++ {
 				inst, err := impl.New(kind, c.Tmp)
 				if err != nil {
 					c.mismatch(Mismatch{Kind: "model", Backend: kind, Finger: "setup", Impl: err.Error()})
